@@ -549,6 +549,60 @@ pub fn clean_space_set(spec: &DictSpec, user: Option<&[LexRow]>) -> Option<Vec<c
     Some(set)
 }
 
+/// A sentence of more than 65536 characters in which lexicon words and unknown words alternate: positions beyond
+/// 65535 are positions like any other.
+pub fn c01_witness_long_sentence(ctx: &mut Ctx) {
+    let char_def = "DEFAULT 0 0 1\nSPACE 0 1 0\n0x0020 SPACE\n";
+    for ignore_space in [false, true] {
+        let d = match build_from_texts(b"a,0,0,1,A\n", char_def.as_bytes(), b"DEFAULT,0,0,10,D\nSPACE,0,0,5,S\n", &ConnTexts::Matrix(b"1 1\n0 0 0\n".to_vec())) {
+            BuildOutcome::Ok(d) => d,
+            _ => return,
+        };
+        let tok = match Tokenizer::new(d).ignore_space(ignore_space) {
+            Ok(t) => t,
+            Err(_) => return,
+        };
+        let mut w = tok.new_worker();
+        // "a" (lexicon), "b" (unknown, one character), now and then a space and an astral character
+        let mut s = String::new();
+        let mut want: Vec<(usize, usize, &str)> = vec![];
+        let mut pos = 0usize;
+        for i in 0..33_500 {
+            for (c, f) in [("a", "A"), (if i % 97 == 0 { "𠮷" } else { "b" }, "D")] {
+                s.push_str(c);
+                want.push((pos, pos + 1, f));
+                pos += 1;
+            }
+            if i % 1000 == 999 {
+                s.push(' ');
+                if !ignore_space {
+                    want.push((pos, pos + 1, "S"));
+                }
+                pos += 1;
+            }
+        }
+        ctx.eval();
+        let case = json!({"char.def": char_def, "lex.csv": "a,0,0,1,A", "unk.def": "DEFAULT,0,0,10,D\nSPACE,0,0,5,S", "sentence": format!("{} characters: a b a b ... with a space after every 2000 and U+20BB7 now and then", pos), "ignore_space": ignore_space});
+        match tokenize(&mut w, &s) {
+            Ok(t) => {
+                let got: Vec<(usize, usize, &str)> = t.iter().map(|x| (x.cs, x.ce, x.feat.as_str())).collect();
+                let chars: Vec<char> = s.chars().collect();
+                let surf_ok = t.iter().all(|x| x.surface == chars[x.cs..x.ce].iter().collect::<String>());
+                if got != want || !surf_ok {
+                    let at = got.iter().zip(&want).position(|(a, b)| a != b).unwrap_or(got.len().min(want.len()));
+                    ctx.violation("tokens_do_not_partition_a_long_sentence", "C01:witness:long-sentence", format!("{} tokens, expected {}; first difference at token {at}: {:?} vs {:?}; surfaces agree with the input: {surf_ok}", got.len(), want.len(), got.get(at), want.get(at)), case);
+                    return;
+                }
+                ctx.bucket("witness_sentence_longer_than_65536_characters_ok");
+            }
+            Err(p) => {
+                ctx.violation("tokenize_panicked", "C01:witness:long-sentence", p, case);
+                return;
+            }
+        }
+    }
+}
+
 /// Known finding C02: >= 65536 nodes ending at one boundary (16-bit back pointer).
 pub fn c02_witness_many_nodes(ctx: &mut Ctx) {
     let n = 70_000usize;
